@@ -125,12 +125,15 @@ func c19Gen(r *core.Rng) c19case {
 	case v < 78:
 		k.Variant = "duplicate-task"
 		text += "\ntask dup() {}\ntask dup() {\n    true\n}\n"
-	case v < 85:
+	case v < 84:
 		k.Variant = "failing-exec"
 		text = "BAD := exec(\"false\")\n" + text
-	case v < 90:
+	case v < 88:
 		k.Variant = "unknown-builtin"
 		text = "BAD := nope(\"x\")\n" + text
+	case v < 91:
+		k.Variant = "bad-template"
+		text += "\ntask tpl() {\n    printf '%s' '" + core.Pick(r, []string{"{{json .State}}", "{{nosuchfunc}}", "{{if}}"}) + "'\n}\n"
 	case v < 95:
 		k.Variant = "none"
 		text = ""
@@ -181,7 +184,7 @@ func c19Gen(r *core.Rng) c19case {
 	case 6, 7:
 		k.Args = []string{"--init"}
 		if k.Nested {
-			k.InitHere = core.Pick(r, []string{"", "", "file", "dir"})
+			k.InitHere = core.Pick(r, []string{"", "", "file", "dir", "symlink"})
 		}
 	case 8:
 		k.Args = append([]string{"--force"}, someTasks()...)
@@ -242,6 +245,9 @@ func c19Judge(c *core.Ctx, k c19case, res *core.ShardResult) (vs []core.Violatio
 		_ = os.WriteFile(filepath.Join(cwd, "spokfile"), []byte("# mine\n"), 0o644)
 	case "dir":
 		_ = os.MkdirAll(filepath.Join(cwd, "spokfile"), 0o755)
+	case "symlink":
+		_ = os.WriteFile(filepath.Join(home, "shared-spokfile"), []byte("# shared\ntask shared() {}\n"), 0o644)
+		_ = os.Symlink(filepath.Join(home, "shared-spokfile"), filepath.Join(cwd, "spokfile"))
 	}
 	bad := func(clause, format string, args ...any) {
 		vs = append(vs, core.Violation{Property: "C19", Clause: clause, Key: k.key(), Detail: fmt.Sprintf(format, args...) + fmt.Sprintf("\nargs %v variant=%s nested=%v\nspokfile:\n%s", k.Args, k.Variant, k.Nested, core.Trunc(k.Spokfile, 1200))})
@@ -256,14 +262,22 @@ func c19Judge(c *core.Ctx, k c19case, res *core.ShardResult) (vs []core.Violatio
 	}
 
 	// what the real parser and loader make of the spokfile (decides what --fmt may do)
+	// A valid program must load and the unloadable variants must not: that is known from how the
+	// case was built and is not asked of the code under test (a loader that wrongly accepts a broken
+	// spokfile would otherwise vouch for itself). Only for the token-removed variant, which usually
+	// but not always stops parsing, does the real parser/loader decide.
 	parses, loads := false, false
 	formatted := ""
 	if k.Variant != "none" && k.Variant != "directory" {
 		if tree, err := parser.New(k.Spokfile).Parse(); err == nil {
 			parses = true
 			formatted = tree.String()
-			if _, err := file.New(tree, proj, nullLogger{}); err == nil {
+			switch k.Variant {
+			case "valid":
 				loads = true
+			case "token-removed":
+				_, lerr := file.New(tree, proj, nullLogger{})
+				loads = lerr == nil
 			}
 		}
 	}
@@ -446,7 +460,7 @@ func c19Run(c *core.Ctx) bool {
 	cov := map[string]any{
 		"evaluations":         total.Evaluations,
 		"distinct_nontrivial": distinct,
-		"rule":                "random project trees (.env, hidden and nested files, files in $HOME above the project) x spokfiles {valid side-effect free program in a random admissible layout, the same with one structural token removed, duplicate task, failing exec, unknown builtin, no spokfile, a directory named spokfile} x actions {no args, task names, --show, --vars, --fmt, --init, --force, --quiet, --json, --debug and pairs} from the project root or a nested directory (--init also where a spokfile, a directory named spokfile or a .gitignore already exists); race-built binary under strace -f. Monitors: before/after snapshot of the whole sandbox and every successful mutating system call; oracle: the write set the action allows (cache directory for runs/listings; the spokfile for --fmt only if it parses and loads, and then exactly the formatter's output; a new spokfile plus an appended .gitignore for --init, nothing if one exists). evaluations = traced invocations; non-trivial = distinct cases that passed",
+		"rule":                "random project trees (.env, hidden and nested files, files in $HOME above the project) x spokfiles {valid side-effect free program in a random admissible layout, the same with one structural token removed, duplicate task, failing exec, unknown builtin, a command that is not a valid template, no spokfile, a directory named spokfile} x actions {no args, task names, --show, --vars, --fmt, --init, --force, --quiet, --json, --debug and pairs} from the project root or a nested directory (--init also where a spokfile, a directory or symlink named spokfile or a .gitignore already exists); race-built binary under strace -f. Monitors: before/after snapshot of the whole sandbox and every successful mutating system call; oracle: the write set the action allows (cache directory for runs/listings; the spokfile for --fmt only if it parses and loads, and then exactly the formatter's output; a new spokfile plus an appended .gitignore for --init, nothing if one exists). evaluations = traced invocations; non-trivial = distinct cases that passed",
 		"samples":             total.Samples,
 		"counters":            total.Counters,
 		"actions_seen":        total.SetValues("actions"),
